@@ -1,6 +1,9 @@
 package harness
 
-import "testing"
+import (
+	"runtime/debug"
+	"testing"
+)
 
 func TestC01(t *testing.T) { runSpec(t, "C01") }
 func TestC02(t *testing.T) { runSpec(t, "C02") }
@@ -15,4 +18,8 @@ func TestC12(t *testing.T) { runSpec(t, "C12") }
 func TestC13(t *testing.T) { runSpec(t, "C13") }
 func TestC14(t *testing.T) { runSpec(t, "C14") }
 func TestC15(t *testing.T) { runSpec(t, "C15") }
-func TestC18(t *testing.T) { runSpec(t, "C18") }
+func TestC18(t *testing.T) {
+	old := debug.SetGCPercent(1) // collect as often as possible
+	defer debug.SetGCPercent(old)
+	runSpec(t, "C18")
+}
